@@ -256,6 +256,6 @@ func TestC04_Seed(t *testing.T) {
 		if k++; k%97 == 1 && len(m) < 300 {
 			cov.Sample("c04.seed", c)
 		}
-		judge(rt, "c04.seed", c04Check, c)
+		judgeH(rt, "c04.seed", c04Check, c, gen.Lang().Draw(rt, "history-around"))
 	})
 }
